@@ -25,16 +25,23 @@ MANIFEST = dict(
     category="proof",
     text="proof (partial): machine-checked proof (Coq) on the Context/resolver model: two successful inputs submitted "
          "one after the other or joined into one multi-line input give the same printed output, the same last result "
-         "and equivalent states (C07_fold_partial) — under the premises, stated in the theorem, that name resolution, "
-         "type checking and compile-and-run process a statement list as a fold and that the parser reads the joined "
-         "text as the concatenation of the statement lists (these premises are validated on the implementation, not "
-         "proved from the Rust code; the resolver part — one depth-first pass over p1 ++ p2 equals two passes — IS "
-         "proved); `save` writes exactly the trimmed successful inputs in order (C07_save_lines, model of "
-         "SessionHistory::save_inner) and replaying them in a fresh session reproduces the outcomes of the successful "
-         "inputs and an equivalent final state (C07_save_replay, built on C06_history); a copied session is a function "
-         "of the copied state only (C07_clone — in the model a Context is a value; absence of shared mutable state "
-         "between a Context and its clone is checked on real clones). Tie: incremental / joined / split / "
-         "saved-and-replayed / cloned sessions on real Contexts with the real CommandRunner and SessionHistory.",
+         "and equivalent states (C07_fold_partial) under premise (a) the stages are folds over the statement list and "
+         "(b) the parser reads the joined text as the concatenation of the statement lists. (a) is discharged for EVERY "
+         "instance whose stages are defined as folds (C07_fold_any_folds) and in particular for the executable "
+         "miniature instance the correspondence runs on (C07_fold_toy); that numbat's transform / check / "
+         "interpret_statements+run are such folds remains an assumption about the Rust code, validated by joined/split "
+         "sessions. (b) is proved on a model of the statement loop of Parser::parse over an arbitrary statement parser "
+         "from four locality conditions (C07_parse_concat_skeleton; non-vacuity C07_parse_concat_one_tok) and outright, "
+         "at text level, for the miniature grammar (C07_parse_concat_toy); that Parser::statement is local is "
+         "validated on the real parser for all 3600 ordered pairs of a 60-statement alphabet, not proved. The proof "
+         "attempt exposed finding C07-semicolon-before-newline (`1;` and `2` succeed, `1;\\n2` was a parse error), "
+         "repaired by a fix: commit; C07_semicolon_before_fix_refuted keeps the kernel witness and Gen/ParserLoop.v "
+         "re-derives the relevant flag from parser.rs on every run. `save` writes exactly the trimmed successful inputs "
+         "in order (C07_save_lines) and replaying them reproduces the successful outcomes and an equivalent state "
+         "(C07_save_replay, built on C06_history); a copied session is a function of the copied state only "
+         "(C07_clone; sharing in real clones is checked on the implementation). Tie: incremental / joined / split / "
+         "saved-and-replayed / cloned sessions on real Contexts with the real CommandRunner and SessionHistory, plus "
+         "the interactive binary under a pty with the real `save` and `numbat <saved file>`.",
     design_ref="DESIGN.md §6 C07, design/session.md",
     note="Trusted: Coq kernel + vm_compute; hand models Session/{Resolver,Context}.v, SaveProofs.v (save_inner, REPL "
          "loop body); the REPL glue of numbat-cli is re-implemented in the harness around the real "
